@@ -111,6 +111,7 @@ struct ProbeOp
 static void cshift_case(double sigr, double sigi, bool real_lambda)
 {
     const int n = 3, nev = 1, ncv = 3;
+    g_csqrt = 0;
     ProbeOp op;
     op.n = n;
     Real sigmar(sigr), sigmai(sigi);
